@@ -43,6 +43,20 @@ def binopPrecedenceOK : Bool :=
       | some oa, some ob => (decide (oa.prec < ob.prec) == decide (a.2 < b.2)) && (decide (oa.prec = ob.prec) == decide (a.2 = b.2))
       | _, _ => false))
 
+/-- the unary operator a fixed spelling denotes in the model -/
+def unOpOfSpelling (s : String) : Option UnOp :=
+  match literals.find? (fun kl => kl.2 == s.toList) with
+  | some kl => unOpOf (.sym kl.1)
+  | none => none
+
+/-- the tokens the source maps to unary operators are the model's three, and no fixed spelling besides them is one -/
+def unaryOperatorsOK : Bool :=
+  match Src.unaryOperators with
+  | none => true
+  | some t =>
+    t.all (fun s => (unOpOfSpelling s).isSome) &&
+    literals.all (fun kl => (unOpOf (.sym kl.1)).isSome == t.any (fun s => s.toList == kl.2))
+
 /-- the model's function table is the source's `FUNC_TABLE` -/
 def funcTableOK : Bool :=
   match Src.funcTable with
@@ -55,5 +69,6 @@ def funcTableOK : Bool :=
 theorem tokenSpellings_from_source : tokenSpellingsOK = true := by decide +kernel
 theorem binopPrecedence_from_source : binopPrecedenceOK = true := by decide +kernel
 theorem funcTable_from_source : funcTableOK = true := by decide +kernel
+theorem unaryOperators_from_source : unaryOperatorsOK = true := by decide +kernel
 
 end Dtr
